@@ -92,9 +92,34 @@ Definition conv_obs_eqb (a b : conv_obs) : bool :=
 
 Inductive entry : Type := EMeta | ENested | ENone.
 
+Record oracles : Type := {
+  r_parse : list (grammar * string * option string);
+  r_arr : list (string * option expr);
+  r_preds : list (string * option (list string));
+}.
+
+Definition grammar_eqb (a b : grammar) : bool :=
+  match a, b with
+  | GExpr, GExpr | GPath, GPath | GIdent, GIdent | GExprArray, GExprArray | GExprPath, GExprPath
+  | GExprRange, GExprRange => true
+  | GSyn x, GSyn y | GPunct x, GPunct y => str_eqb x y
+  | _, _ => false
+  end.
+
+Definition reparse_of (o : oracles) (g : grammar) (s : string) : option string :=
+  match find (fun r => grammar_eqb (fst (fst r)) g && str_eqb (snd (fst r)) s) (r_parse o) with
+  | Some r => snd r
+  | None => None
+  end.
+Definition reparse_arr_of (o : oracles) (s : string) : option expr :=
+  match find (fun r => str_eqb (fst r) s) (r_arr o) with Some r => snd r | None => None end.
+Definition reparse_preds_of (o : oracles) (s : string) : option (list string) :=
+  match find (fun r => str_eqb (fst r) s) (r_preds o) with Some r => snd r | None => None end.
+
 Record caseConv : Type := {
   k_target : target;
   k_pf : list (string * option N * option N);      (* string, f32 bits, f64 bits *)
+  k_or : oracles;
   k_entry : entry;
   k_input : nested;                                 (* ignored for ENone *)
   k_obs : conv_obs;
@@ -107,7 +132,8 @@ Definition pf_of (tbl : list (string * option N * option N)) (is64 : bool) (s : 
   end.
 
 Definition model_conv (c : caseConv) : conv_obs :=
-  let F := fm_of (pf_of (k_pf c)) (k_target c) in
+  let F := fm_of (pf_of (k_pf c)) (reparse_of (k_or c)) (reparse_arr_of (k_or c))
+                 (reparse_preds_of (k_or c)) (k_target c) in
   match k_entry c with
   | EMeta => conv_obs_of (from_meta F (k_input c))
   | ENested => conv_obs_of (from_nested F (k_input c))
@@ -118,8 +144,6 @@ Definition agree_conv (c : caseConv) : bool := conv_obs_eqb (model_conv c) (k_ob
 
 (** ** C11 as an executable specification, written from the property text (mathematical
     reading of numerals, not the digit loop). *)
-Fixpoint strip_groups (e : expr) : expr :=
-  match e with EGroup _ g => strip_groups g | _ => e end.
 
 (** The literal an item supplies as its value, if any, with the literal's own range. *)
 Definition value_lit (n : nested) : option (info * lit) :=
@@ -169,6 +193,7 @@ Definition spec11 (pf : bool -> string -> option N) (t : target) (n : nested) : 
   | TString | TPathBuf =>
       match value_lit n with Some (_, LStr s) => Some (VStr s) | _ => None end
   | TUnit => match n with NPath _ _ => Some VUnit | _ => None end
+  | _ => None
   end.
 
 (** Where a rejection must point: inside the item; inside the value when the item has one. *)
@@ -197,4 +222,90 @@ Definition holds11 (c : caseConv) : bool :=
 
 Definition run_conv (holds : caseConv -> bool) (cs : list caseConv) : string :=
   report (map (fun ic => (fst ic, agree_conv (snd ic), holds (snd ic)))
+              (combine (map N.of_nat (seq 0 (List.length cs))) cs)).
+
+(** ** C12 as a predicate on two observations of the implementation itself: the wrapped target
+    and its inner target on the same item. *)
+Inductive wrapper : Type :=
+| WOption | WPtr | WResult | WResultMeta | WSpanned | WWithOriginal | WOverride.
+
+Definition fill_root_span (s : span) (o : obs) : obs :=
+  match o with
+  | Obs n d b l None kids => Obs n d b l (Some s) kids
+  | _ => o
+  end.
+
+Definition holds12 (w : wrapper) (entry : entry) (m : nested) (inner outer : conv_obs) : bool :=
+  match entry with
+  | ENone =>
+      match w, inner, outer with
+      | WOption, _, CNone (Some VNone) => true
+      | WPtr, CNone x, CNone y => option_eqb value_eqb (option_map VPtr x) y
+      | WResult, CNone x, CNone y => option_eqb value_eqb (option_map VResOk x) y
+      | (WResultMeta | WSpanned | WWithOriginal | WOverride), _, CNone None => true
+      | _, _, _ => false
+      end
+  | ENested => true      (* C12 quantifies over meta items; a bare literal in a list is not one *)
+  | EMeta =>
+      match w with
+      | WOption =>
+          match inner, outer with
+          | COk v, COk v' => value_eqb (VSome v) v'
+          | CErr o, CErr o' => obs_eqb true o o'
+          | _, _ => false
+          end
+      | WPtr =>
+          match inner, outer with
+          | COk v, COk v' => value_eqb (VPtr v) v'
+          | CErr o, CErr o' => obs_eqb true o o'
+          | _, _ => false
+          end
+      | WResult =>
+          match inner, outer with
+          | COk v, COk v' => value_eqb (VResOk v) v'
+          | CErr o, COk v' => value_eqb (VResErrObs o) v'
+          | _, _ => false
+          end
+      | WResultMeta =>
+          match inner, outer with
+          | COk v, COk v' => value_eqb (VMetaOk v) v'
+          | CErr _, COk v' => value_eqb (VMetaErr (i_toks (ninfo m))) v'
+          | _, _ => false
+          end
+      | WSpanned =>
+          match inner, outer with
+          | COk v, COk v' =>
+              value_eqb (VSpanned v (spanned_span m)) v'
+          | CErr o, CErr o' => obs_eqb true (fill_root_span (i_span (ninfo m)) o) o'
+          | _, _ => false
+          end
+      | WWithOriginal =>
+          match inner, outer with
+          | COk v, COk v' => value_eqb (VWithOrig v (i_toks (ninfo m))) v'
+          | CErr o, CErr o' => obs_eqb true o o'
+          | _, _ => false
+          end
+      | WOverride =>
+          match m with
+          | NPath _ _ => match outer with COk VInherit => true | _ => false end
+          | _ =>
+              match inner, outer with
+              | COk v, COk v' => value_eqb (VExplicit v) v'
+              | CErr o, CErr o' => obs_eqb true o o'
+              | _, _ => false
+              end
+          end
+      end
+  end.
+
+Record caseWrap : Type := {
+  w_case : caseConv;
+  w_wrapper : wrapper;
+  w_inner : conv_obs;
+}.
+
+Definition run_wrap (cs : list caseWrap) : string :=
+  report (map (fun ic => (fst ic, agree_conv (w_case (snd ic)),
+                          holds12 (w_wrapper (snd ic)) (k_entry (w_case (snd ic))) (k_input (w_case (snd ic)))
+                                  (w_inner (snd ic)) (k_obs (w_case (snd ic)))))
               (combine (map N.of_nat (seq 0 (List.length cs))) cs)).
